@@ -496,7 +496,7 @@ pub proof fn simd_ok_f32_aarch64() ensures simd_ok::<F32A64>() {}
 pub proof fn simd_ok_grad() ensures simd_ok::<Grad>() {}
 '''
             + '\n// ===================================== RegOp -> assembler dispatch =====================================\n'
-            + d['head'] + d['regop'] + jit_dispatch.STATIC + d['sem'] + d['reg'] + d['trait'] + '\n' + d['fn'] + '\n'
+            + d['head'] + d['regop'] + jit_dispatch.STATIC + d['sem'] + d['reg'] + d['trait'] + '\n' + d['fn'] + '\n' + d['frame'] + '\n'
             + '\n} // verus!\nfn main() {}\n')
     # place the loop invariants (keyed by what the loop fills from what)
     for key, inv in INV.items():
@@ -546,6 +546,9 @@ pub proof fn simd_ok_grad() ensures simd_ok::<Grad>() {}
     for nm, has_body in d['names']:
         if has_body:
             obls.append(Obligation('jit::Assembler::' + nm, 'jit', 'Assembler::' + nm, props=['C02'], note='default method of the trait'))
+    obls.append(Obligation('jit::AssemblerData::prepare_stack', 'jit', 'AssemblerData::prepare_stack', props=['C02', 'C11']))
+    obls.append(Obligation('jit::AssemblerData::stack_pos', 'jit', 'AssemblerData::stack_pos', props=['C02', 'C11']))
+    obls.append(Obligation('jit::lemma_frame', 'jit', 'lemma_frame', props=['C02'], kind='lemma'))
     for suf in ('X86', 'A64'):
         obls.append(Obligation('jit::reg_' + suf, 'jit', 'reg_' + suf, props=['C02', 'C11'], note='fn reg with the constants of that architecture'))
         obls.append(Obligation('jit::imm_outside_' + suf, 'jit', 'imm_outside_' + suf, props=['C02'], kind='lemma'))
